@@ -6,6 +6,8 @@ and `+= PREC_STEP`:
   POWERS  slot table of PrattParserMap: expr loops while rbp < lbp; prefix recurses with prec - 1; infix with
           prec (Left) / prec - 1 (Right); postfix does not recurse
   LEVELS  both table builders add PREC_STEP once per level, levels start >= PREC_STEP, PREC_STEP >= 2
+  MACRO   the expansions of prec_climber! and pratt_precedence! on a witness table (harness/climber_witness, compiled,
+          never run) give `|`-joined operators one level, later lines the next level, and keep associativity
   CLIMB   PrecClimber numbers levels from 1, compares with >= / (> || Right && ==) and extends the right
           operand in a loop
 """
@@ -50,6 +52,7 @@ def run(rep, tier):
         duplicates(rep, c, sfx)
         chain(rep, c, sfx)
         lbp_source(rep, c, sfx)
+    macros(rep)
 
 
 # ------------------------------------------------------------------ symbolic binding power
@@ -603,3 +606,146 @@ def lbp_source(rep, c, sfx):
             r.violation(key, where(v), "%s answers `%s` for some operator instead of the level stored in the table: e.g. a "
                         "postfix operator declared below a prefix one then binds only the last operand (`!a?` groups as "
                         "!(a?))" % (key, hirq.expr_text(v0)[:40]))
+
+
+# ------------------------------------------------------------------ MACRO (table-building macros)
+
+WITNESS_LEVELS = [["a1", "a2"], ["b1", "b2", "b3"], ["c1"], ["d1", "d2"]]
+WITNESS_ASSOC = {"a1": "Left", "a2": "Left", "b1": "Right", "b2": "Right", "b3": "Right", "c1": "Left", "d1": "Left",
+                 "d2": "Left"}
+
+
+def fold_int(c, n, depth=0):
+    """Value of a closed integer constant expression (literals, + - *, paths to other constants of the crate)."""
+    n = peel(n)
+    k = kind(n)
+    if depth > 12 or n is None:
+        return None
+    if k == "Lit" and isinstance(n.get("v"), int) and not isinstance(n.get("v"), bool):
+        return n["v"]
+    if k == "Binary" and n["op"] in ("+", "-", "*"):
+        a, b = fold_int(c, n["l"], depth + 1), fold_int(c, n["r"], depth + 1)
+        if a is None or b is None:
+            return None
+        return a + b if n["op"] == "+" else (a - b if n["op"] == "-" else a * b)
+    if k == "Path" and n.get("res") == "def" and str(n.get("dk", "")).startswith("Const"):
+        for b in c.bodies:
+            if b["path"] == n["path"] and b.get("body") is not None:
+                return fold_int(c, b["body"], depth + 1)
+    if k == "Block" and not n.get("stmts") and n.get("expr") is not None:
+        return fold_int(c, n["expr"], depth + 1)
+    if k == "Cast":
+        return fold_int(c, n["e"], depth + 1)
+    return None
+
+
+def macros(rep):
+    r = rep.rule("C13.MACRO", 16,
+                 "on the witness table `L a1|a2, R b1|b2|b3, L c1, L d1|d2` the expansion of prec_climber! gives the "
+                 "operators of one line the same precedence, each later line a strictly larger one, and each operator "
+                 "the associativity written on its line; pratt_precedence! marks exactly the first operator of each "
+                 "line as starting a new level and keeps the operators in order")
+    try:
+        cs = facts.harness_crates("climber_witness", ["climber_witness"])
+    except facts.BuildFailed as e:
+        r.lost("witness crate harness/climber_witness (uses pest::prec_climber! and pest::pratt_precedence!): %s" % e)
+        return
+    c = (cs.get("climber_witness") or [None])[0]
+    if c is None:
+        r.lost("facts of the witness crate")
+        return
+    level_of = {op: i for i, grp in enumerate(WITNESS_LEVELS) for op in grp}
+    order = [op for grp in WITNESS_LEVELS for op in grp]
+    # ---- prec_climber!
+    w = [b for b in c.bodies if b["path"].endswith("::WITNESS") and b.get("body") is not None]
+    arr = None
+    if w:
+        for x in walk(w[0]["body"]):
+            if kind(x) == "Call" and str(callee(x)).endswith("PrecClimber::new_const"):
+                for y in walk(x["args"][0]):
+                    if kind(y) == "Array":
+                        arr = y
+                        break
+    if arr is None:
+        r.lost("PrecClimber::new_const(&[..]) in the expansion of prec_climber!")
+    else:
+        got = []
+        for el in arr["elems"]:
+            el = peel(el)
+            parts = el.get("elems", []) if kind(el) == "Tup" else []
+            if len(parts) != 3:
+                r.lost("(rule, precedence, assoc) triples in the expansion of prec_climber!")
+                return
+            name = str(peel(parts[0]).get("path", "")).split("::")[-1]
+            prec = fold_int(c, parts[1])
+            assoc = str(peel(parts[2]).get("path", "")).split("::")[-1]
+            got.append((name, prec, assoc))
+        names = [g[0] for g in got]
+        r.instance("climber:order", where(arr), ",".join(names))
+        if names != order:
+            r.violation("climber:order", where(arr), "prec_climber! lists the operators as %s, the table says %s"
+                        % (names, order))
+        precs = {g[0]: g[1] for g in got}
+        for (name, prec, assoc) in got:
+            if name not in level_of:
+                continue
+            r.instance("climber:%s" % name, where(arr), "precedence %s, %s" % (prec, assoc))
+            if prec is None:
+                r.violation("climber:%s" % name, where(arr), "the precedence of %s is not a constant this rule can fold" % name)
+                continue
+            if assoc != WITNESS_ASSOC[name]:
+                r.violation("climber:%s:assoc" % name, where(arr), "prec_climber! gives %s associativity %s; its line says %s"
+                            % (name, assoc, WITNESS_ASSOC[name]))
+            for (other, p2, _a) in got:
+                if other == name or p2 is None or other not in level_of:
+                    continue
+                want = (level_of[name] > level_of[other]) - (level_of[name] < level_of[other])
+                have = (prec > p2) - (prec < p2)
+                if want != have and name < other:
+                    rel = {0: "the same level as", 1: "a higher level than", -1: "a lower level than"}
+                    r.violation("climber:%s~%s" % (name, other), where(arr),
+                                "prec_climber! puts %s on %s %s (precedences %d and %d); in the table it is on %s: "
+                                "operators joined by `|` no longer share a level / lines no longer ascend, so the "
+                                "macro-built climber groups differently from PrecClimber::new on the same table"
+                                % (name, rel[have], other, prec, p2, rel[want]))
+        if precs and min(v for v in precs.values() if v is not None) < 1:
+            r.violation("climber:min", where(arr), "a level below 1: the climb starts with minimum precedence 0 and "
+                        "compares with >=, level 0 operators are indistinguishable from 'no operator'")
+    # ---- pratt_precedence!
+    w = [b for b in c.bodies if b["path"].endswith("::PRATT_WITNESS") and b.get("body") is not None]
+    arr = None
+    if w:
+        for x in walk(w[0]["body"]):
+            if kind(x) == "Call" and str(callee(x)).endswith("ConstPrattParser::new_const"):
+                for y in walk(x["args"][0]):
+                    if kind(y) == "Array":
+                        arr = y
+                        break
+    if arr is None:
+        r.lost("ConstPrattParser::new_const([..]) in the expansion of pratt_precedence!")
+        return
+    got = []
+    for el in arr["elems"]:
+        el = peel(el)
+        parts = el.get("elems", []) if kind(el) == "Tup" else []
+        if len(parts) != 2:
+            r.lost("(op, starts_level) pairs in the expansion of pratt_precedence!")
+            return
+        opc = peel(parts[0])
+        name = None
+        for y in walk(opc):
+            if kind(y) == "Path" and "::Rule::" in str(y.get("path", "")):
+                name = y["path"].split("::")[-1]
+        flag = hirq.lit_value(parts[1])
+        got.append((name, flag, str(callee(opc)).split("::")[-1]))
+    names = [g[0] for g in got]
+    r.instance("pratt:order", where(arr), ",".join(str(n) for n in names))
+    if names != order:
+        r.violation("pratt:order", where(arr), "pratt_precedence! lists the operators as %s, the table says %s" % (names, order))
+    firsts = set(grp[0] for grp in WITNESS_LEVELS)
+    for (name, flag, ctor) in got:
+        r.instance("pratt:%s" % name, where(arr), "%s, starts a level: %s" % (ctor, flag))
+        if name in level_of and flag is not (name in firsts):
+            r.violation("pratt:%s" % name, where(arr),
+                        "pratt_precedence! marks %s as %s a new level; in the table it is %s of its line" %
+                        (name, "starting" if flag else "not starting", "the first" if name in firsts else "not the first"))
